@@ -1,6 +1,7 @@
 import HugrVerif.Sexp
 import HugrVerif.Bridge.Json
 import HugrVerif.Bridge.Render
+import HugrVerif.RenderCheck
 import HugrVerif.SerialCodecs
 import HugrVerif.Drive.Serial
 /-
@@ -9,7 +10,9 @@ import HugrVerif.Drive.Serial
   stream `render.run`   payload ((config…) (cp…) json)
         configs as in `Bridge/Render.lean`; (cp…) the non-printable non-ASCII code points occurring in the
         document (`str.isprintable`); json the document `Hugr.to_json()` produced.
-     -> a JSON array with, per config, the dump of `render (loadJson doc) config` or {"error": cls}
+     -> {"hyps": b, "outs": [o…]} with, per config, the dump of `render (loadJson doc) config` or
+        {"error": cls}, and b = the loaded store passes `hypsB` (the decidable store hypotheses of the C20
+        theorems); a bare array of errors if no store was loaded
         (`KeyError` for an unknown palette name; `Load:<cls>` if the document does not load);
         `!unsupported` if a string the renderer prints is outside `PyStr.lean`.
 -/
@@ -34,12 +37,12 @@ def handle (payload : Sexp) : String :=
           if !supported np s then "!unsupported"
           else
             let E := pyStrs np
-            jsonText (.arr (cfgs.map fun
+            jsonText (.obj [("hyps", .bool (hypsB s)), ("outs", .arr (cfgs.map fun
               | none => errJson "KeyError"
               | some cfg =>
                 match render E s cfg with
                 | .error e => errJson e.name
-                | .ok out => dump out))
+                | .ok out => dump out))])
     | _, _, _ => "!bad-payload"
   | _ => "!bad-payload"
 
